@@ -131,6 +131,14 @@ fn scaled_data(r: &ScaledRecipe) -> String {
 
 struct Stats { what: &'static str }
 
+/// byte range of `s` widened to char boundaries
+fn cut(s: &str, mut a: usize, mut b: usize) -> &str {
+    a = a.min(s.len()); b = b.min(s.len());
+    while !s.is_char_boundary(a) { a -= 1; }
+    while !s.is_char_boundary(b) { b += 1; }
+    &s[a..b]
+}
+
 /// oracle + correspondence for one serializable value; `eq` compares the value read back with the original (None: compare JSON images only)
 fn check_json<T: serde::Serialize + serde::de::DeserializeOwned>(ctx: &mut Ctx, st: &Stats, desc: &str, r: &T, finite: bool, op: Option<String>, eq: Option<&dyn Fn(&T, &T) -> bool>) {
     let js = match guarded(|| serde_json::to_string(r)) {
@@ -151,18 +159,18 @@ fn check_json<T: serde::Serialize + serde::de::DeserializeOwned>(ctx: &mut Ctx, 
         Err(p) => { ctx.oracle_fail(desc.to_string(), format!("{}: serde_json::from_str panics: {p}", st.what), panic_signature(&p)); return; }
         Ok(Err(e)) => {
             ctx.count(&format!("{}:from_str-fails", st.what));
-            if finite { ctx.oracle_fail(desc.to_string(), format!("{}: its own JSON does not deserialize: {e}; json {}", st.what, &js[..js.len().min(300)]), "c15:from_str".into()); }
+            if finite { ctx.oracle_fail(desc.to_string(), format!("{}: its own JSON does not deserialize: {e}; json {}", st.what, cut(&js, 0, 300)), "c15:from_str".into()); }
             return;
         }
         Ok(Ok(b)) => b,
     };
     if !finite { ctx.count(&format!("{}:nonfinite-roundtrips-anyway", st.what)); return; }
     if let Some(eq) = eq {
-        if !eq(&back, r) { ctx.oracle_fail(desc.to_string(), format!("{}: deserialized recipe is not equal to the original; json {}", st.what, &js[..js.len().min(300)]), "c15:not-equal".into()); return; }
+        if !eq(&back, r) { ctx.oracle_fail(desc.to_string(), format!("{}: deserialized recipe is not equal to the original; json {}", st.what, cut(&js, 0, 300)), "c15:not-equal".into()); return; }
     }
     match serde_json::to_string(&back) {
         Ok(js2) if js2 == js => {}
-        Ok(js2) => { let k = js.bytes().zip(js2.bytes()).position(|(a, b)| a != b).unwrap_or(0); ctx.oracle_fail(desc.to_string(), format!("{}: re-serialization differs at byte {k}: {:?} vs {:?}", st.what, &js[k.saturating_sub(30)..js.len().min(k + 40)], &js2[k.saturating_sub(30)..js2.len().min(k + 40)]), "c15:reserialize".into()); }
+        Ok(js2) => { let k = js.bytes().zip(js2.bytes()).position(|(a, b)| a != b).unwrap_or(0); ctx.oracle_fail(desc.to_string(), format!("{}: re-serialization differs at byte {k}: {:?} vs {:?}", st.what, cut(&js, k.saturating_sub(30), k + 40), cut(&js2, k.saturating_sub(30), k + 40)), "c15:reserialize".into()); }
         Err(e) => ctx.oracle_fail(desc.to_string(), format!("{}: re-serialization fails: {e}", st.what), "c15:reserialize".into()),
     }
 }
